@@ -104,8 +104,15 @@ class HasOutputModule:
             for name, deactivate_control in out.inputCallbacks.items():
                 if name != self.name:
                     deactivate_control(self.name)
+        try:
+            self.set_control_active(True)
+        except Exception:
+            if out and not self.control_active:
+                # the others are switched off already: nobody is in control
+                out.controlled_by = 0  # self
+            raise
+        if out:
             out.controlled_by = self.name
-        self.set_control_active(True)
 
     def deactivate_control(self, source=None):
         """called when another module takes over control
